@@ -35,7 +35,7 @@ from .common import fail
 
 PURE_FUNCS = {"isinstance", "len", "type", "str", "repr", "bool", "int", "float", "tuple", "list", "map", "sorted",
               "np.any", "np.all", "np.array_equal", "np.asarray", "np.copy", "np.array", "np.clip", "np.zeros",
-              "np.dtype", "np.shape", "np.ndim", "warnings.warn", "id", "hasattr", "getattr", "issubclass"}
+              "np.dtype", "np.shape", "np.ndim", "warnings.warn", "id", "hasattr", "getattr", "issubclass", "super"}
 PURE_METHODS = {"copy", "clip", "equals", "join", "items", "keys", "values", "any", "all", "astype", "format"}
 LOG_ROOTS = {"logging", "logger", "log", "_logger", "_log", "LOGGER"}
 NEGATE = {ast.Is: ast.IsNot, ast.IsNot: ast.Is, ast.Eq: ast.NotEq, ast.NotEq: ast.Eq, ast.In: ast.NotIn, ast.NotIn: ast.In}
@@ -245,6 +245,8 @@ class _StripMessages(ast.NodeTransformer):
     def visit_Raise(self, node):
         if isinstance(node.exc, ast.Call):
             return ast.Raise(exc=ast.Call(func=node.exc.func, args=[], keywords=[]), cause=None)
+        if isinstance(node.exc, (ast.Name, ast.Attribute)):
+            return ast.Raise(exc=ast.Call(func=node.exc, args=[], keywords=[]), cause=None)     # raise X == raise X()
         return ast.Raise(exc=node.exc, cause=None)
 
     def visit_Call(self, node):
@@ -604,6 +606,25 @@ class _Subst(ast.NodeTransformer):
         return node
 
 
+def alias_uses(st, names: set):
+    """(name, [enclosing Call nodes whose ARGUMENTS contain the use]) for every load of one of `names` in st"""
+    out = []
+
+    def go(n, anc):
+        if isinstance(n, ast.Name) and isinstance(n.ctx, ast.Load) and n.id in names:
+            out.append((n.id, anc))
+        if isinstance(n, ast.Call):
+            go(n.func, anc)
+            for a in list(n.args) + [k.value for k in n.keywords]:
+                go(a, anc + [n])
+            return
+        for c in ast.iter_child_nodes(n):
+            go(c, anc)
+
+    go(st, [])
+    return out
+
+
 def stmt_effects(st):
     """-> (names re-bound, may write to an object)"""
     stores, heap = set(), False
@@ -651,6 +672,18 @@ def subst_tree(b: Blk, env: dict, dead: set, stable: set, params: set, pending=f
         if isinstance(st, ast.AugAssign) and isinstance(st.target, ast.Name) and (st.target.id in env or st.target.id in dead):
             raise TranslationError(f"in-place operation on the local alias `{st.target.id}`")
         st0 = st
+        if isinstance(st, (ast.For, ast.While, ast.Try, ast.With, ast.AsyncFor, ast.AsyncWith, ast.FunctionDef, ast.ClassDef)):
+            # a loop body runs again after its own effects: what it may change is dead before it is entered
+            env, dead = kill(env, dead, *stmt_effects(st), stable)
+        else:
+            _, heap0 = stmt_effects(st)
+            impure = [n for n in ast.walk(st) if isinstance(n, ast.Call) and not call_is_pure(n)]
+            if heap0 and impure:
+                # an unknown call that is not the one the alias is an argument of may run before the alias is read
+                for nm, anc in alias_uses(st, set(env)):
+                    if reads_heap(env[nm], stable) and any(c not in anc for c in impure):
+                        raise TranslationError(f"local alias `{nm}` of object state is used in a statement that calls "
+                                               f"unknown code first")
         st = _Subst(env, dead, shadow).visit(copy.deepcopy(st))
         stores, heap = stmt_effects(st)
         if (isinstance(st, ast.Assign) and len(st.targets) == 1 and isinstance(st.targets[0], ast.Name)
@@ -818,7 +851,7 @@ def render(b: Blk) -> list:
     t1, e1 = th[:len(th) - n], el[:len(el) - n]
     if n and t1 and e1:
         return out + [ast.If(test=test, body=t1, orelse=e1)] + suffix
-    if n and not t1 and not e1 and is_cheap(test):
+    if n and not t1 and not e1 and is_cheap(test) and not may_raise(test, {"np", "xr"}):
         return out + suffix                       # both branches do the same thing (tests are free of effects or kept above)
     if n and (t1 or e1):
         r1, cond = (t1, test) if t1 else (e1, negate(test))
